@@ -4,16 +4,23 @@ func init() {
 	register(&Prop{
 		ID: "C02", Title: "Decoders are total and resource-bounded on arbitrary input", Level: "fault_enumeration",
 		Subs: []Sub{
-			{Pkg: "codec", Harness: "faultdecode", Config: "serix", Weight: 4, Note: "serix Decode (validation on/off) on faulted encodings of every zoo type"},
-			{Pkg: "codec", Harness: "faultdecode", Config: "stream", Weight: 3, Note: "stream Read* helpers on a truncating / failing / corrupting reader"},
-			{Pkg: "codec", Harness: "faultdecode", Config: "deser", Weight: 3, Note: "Deserializer primitives on faulted Serializer output"},
+			{Pkg: "codec", Harness: "faultdecode", Config: "serix", Weight: 4, Note: "serix Decode, validation on/off, on faulted encodings of every zoo type"},
+			{Pkg: "codec", Harness: "faultdecode", Config: "stream", Weight: 3, Note: "stream Read / ReadBytes / ReadBytesWithSize / ReadObject(+WithSize) / ReadCollection / PeekSize on a corrupting, truncating or failing reader"},
+			{Pkg: "codec", Harness: "faultdecode", Config: "deser", Weight: 3, Note: "15 Deserializer methods in 17 variants (ReadNum x3, ReadBool, ReadByte, ReadUint256, ReadTime, ReadBytes, ReadBytesInPlace, ReadVariableByteSlice, ReadString, ReadPayloadLength, ReadSequenceOfObjects, ReadSliceOfObjects, ReadObject, ReadPayload, Skip) on faulted Serializer output"},
 			{Pkg: "codec", Harness: "faultdecode", Config: "json", Weight: 3, Note: "MapDecode / JSONDecode on faulted document trees and texts"},
 			{Pkg: "codec", Harness: "faultdecode", Config: "somap", Weight: 1, Note: "SerializableOrderedMap.Decode"},
 		},
 		QuickS: 40, ThoroughS: 900,
-		Rule:   "TODO",
-		Real:   []string{"TODO"},
-		Stubs:  commonStubs,
-		Assume: []string{"TODO"},
+		Rule: "inputs are faulted stored data: each run draws one entry point of the configuration's family, a valid encoding produced by the real encoder (serix Encode of a zoo value / Write* helpers / Serializer chain / JSONEncode), and ONE fault class, then enumerates that class on that encoding: truncate = every proper prefix; structural-flip = every byte of every length prefix, element count, type code, optional marker and bool (positions known from the reference encoder's layout marks) x 5 variants (^01 ^80 =ff =00 +1); inflated-prefix = every length/count/optional prefix x (0xff,0x80 | 0xffff,0x8000,0x100 | 2^17,2^20 | for 8-byte prefixes also 2^63, 2^64-1, 2^63-1; 2^31 or 2^32-1 on one prefix in 1 of 400 such runs); transport-error (stream family) = reader fails at every offset 0..len; data-flip = 24 sampled 1-3 byte flips; splice = 16 sampled region duplications / drops / overwrites; JSON: wrong-json-type = every value site of the document x 14 replacement values (null, bool, number, negative, fraction, 1e40, string, hex string, numeric string, 26-digit numeric string, array, empty array, object, empty object), key-dropped = every member, key-duplicated = every top-level key x 14 values (text level), truncate = every prefix of the text, data-flip sampled. Each enumeration starts at a decision-chosen rotation (positions, variants, values), because a run ends at its first violation. Oracle per call, under recover: returns a value or an error (no panic); reported consumed bytes <= len(input); every call with an inflated prefix and every 8th other call is measured: runtime.MemStats.TotalAlloc delta <= 64*len(input)+64KiB (single task, nothing else allocates) and process CPU time <= 3 s (iteration bound). distinct = distinct (entry point, encoding, fault class, outcome summary) hash; all runs non-trivial",
+		Real:  []string{"serializer/serix Decode/MapDecode/JSONDecode", "serializer.Deserializer and Serializer", "serializer/stream read helpers", "ds/serializableorderedmap", "encoding/json (real)"},
+		Stubs: append([]string{"storage / transport under the decoders (fault injector over valid encodings; simio reader with truncation and injected errors)"}, commonStubs...),
+		Assume: []string{
+			"restricted claim: totality and boundedness are decided on byte strings / documents reachable by the listed faults from a valid encoding of the zoo; arbitrary byte strings not reachable that way are fuzzing of a pure function and are not claimed",
+			"complete per generated encoding and chosen class only when the run meets no violation; a run stops at its first violation (all open known findings do), the rotation spreads the remaining variants over other runs",
+			"magnitude limit: for 4/8-byte prefixes that a decoder allocates from (stream ReadBytes family, ReadVariableByteSlice / serix []byte) byte 2 is only flipped in its lowest bit and bytes 3.. are never flipped, and byte-shifting faults (splice) are replaced by flips on such inputs: a trusted prefix of 2^31..2^32 zeroes gigabytes per call and 2^33..2^47 on an 8-byte prefix aborts the process (unrecoverable runtime out-of-memory), which no in-process harness survives. The defect itself is exercised at 2^17/2^20 in every inflate run and at 2^31/2^32-1 in rare runs",
+			"the one uint32-prefixed []byte of the zoo is the first field of its own type (blob32) and is never used as a nested payload, so that no fault in front of it shifts random bytes into its prefix",
+			"iteration bound by CPU time is a coarse proxy: only a loop of >3 s on an input of a few hundred bytes is flagged; slices of zero-size elements (where any count is 'holdable' by the input) are not in the zoo",
+			"JSON duplicate keys only at the top level (text); the tree form cannot express them",
+		},
 	})
 }
